@@ -213,4 +213,20 @@ theorem skel_newProviderDataFromConfig_ok : skel_newProviderDataFromConfig = ([
   "p.setAllowedGroups",
   "return p, nil"] : List String) := rfl
 
+theorem flags_authz_ok : flags_authz = ([
+  "StringSlice allowed-group = []string{}",
+  "StringSlice allowed-role = []string{}",
+  "String authenticated-emails-file = \"\"",
+  "StringSlice email-domain = []string{}",
+  "String htpasswd-file = \"\"",
+  "StringSlice htpasswd-user-group = []string{}"] : List String) := rfl
+
+theorem optionTags_authz_ok : optionTags_authz = ([
+  "allowed-group allowed_groups LegacyProvider.AllowedGroups []string",
+  "allowed-role allowed_roles LegacyProvider.AllowedRoles []string",
+  "authenticated-emails-file authenticated_emails_file Options.AuthenticatedEmailsFile string",
+  "email-domain email_domains Options.EmailDomains []string",
+  "htpasswd-file htpasswd_file Options.HtpasswdFile string",
+  "htpasswd-user-group htpasswd_user_groups Options.HtpasswdUserGroups []string"] : List String) := rfl
+
 end O2P.Expect.C08
